@@ -296,6 +296,10 @@ class SymCtx:
             return IntV(Z(x) % nn)
         return IntV(REM(Z(x), Z(n)))
 
+    def floordiv(self, x, k):
+        """x // k for a positive integer constant k"""
+        return IntV(Z(x) / z3.IntVal(int(k)))
+
     def cls_is(self, obj, name):
         return BoolV(z3.BoolVal(getattr(obj, "cls", None) == name or (isinstance(obj, SeqV) and obj.kind == name)))
 
@@ -447,6 +451,9 @@ class RunCtx:
 
     def mod(self, x, n):
         return x % n
+
+    def floordiv(self, x, k):
+        return x // k
 
     def cls_is(self, obj, name):
         return type(obj).__name__ == name
